@@ -16,7 +16,7 @@ c11 = importlib.import_module("props.c11")
 TECHNIQUE = 'Lean 4: fold-of-concatenation, extern transparency, namespace chain split and re-open theorems on the SimpleCxxVisitor model, loop-carried state of the top-level loop; the whole-parse composition is decided by a merge oracle on the implementation and correspondence on pairs (not a theorem)'
 LEAN_TARGET = "CxxModel.Props.C12"
 THEOREMS = ["Cxx.C12_fold_append", "Cxx.C12_extern_transparent", "Cxx.C12_open_split", "Cxx.C12_open_existing", "Cxx.C12_top_level_carries_only_doc",
-            "Cxx.C12_keep_doxygen"]
+            "Cxx.C12_keep_doxygen", "Cxx.C12_namespace_header", "Cxx.C12_extern_block_header", "Cxx.C12_toplevel_namespace", "Cxx.mainBody_item"]
 ANCHORS = ["parser.py:CxxParser.parse", "parser.py:CxxParser._parse_declarations", "parser.py:CxxParser._parse_namespace",
            "parser.py:CxxParser._parse_extern", "parser.py:CxxParser._parse_template", "parser.py:CxxParser._parse_friend_decl",
            "parser.py:CxxParser._parse_class_decl", "parser.py:CxxParser._finish_class_decl", "parser.py:CxxParser._process_access_specifier",
@@ -27,6 +27,8 @@ RULE = ("pairs and triples of complete declaration sequences drawn from: the tes
         "access specifier) inside a class body; expected = pure scope-wise merge of the individual results with B's anonymous ids "
         "shifted by the number A allocated; non-trivial = both sides contribute at least one declaration")
 CARRIED_BY = {
+    "one iteration of parse()'s own loop, on the regenerated rules / dispatch table / keep set: at `namespace n1::…::nk {` (after any comments and blank lines) it finds the doc text, opens one block with exactly the written names and that text, changes nothing else and hands NO doc text to the next iteration": "theorems C12_toplevel_namespace, mainBody_item (Theorems/TopLevel.lean)",
+    "block headers end to end against the real token stream: `namespace n1::…::nk {` of any length opens ONE block carrying exactly the written names and changes nothing else of the parser state; `extern \"L\" {` outside a class opens one extern block with the written linkage": "theorems C12_namespace_header, C12_extern_block_header (Theorems/NsForm.lean, ExternForm.lean)",
     "parse(A ++ B) = merge(parse A, parse B) (full statement)": "NOT a theorem: oracle `compose` (implementation vs pure merge of its own results) + correspondence `parse[pairs]`",
     "the result is a fold of the callback stream, and folding a concatenation is folding in sequence": "theorem C12_fold_append",
     "extern blocks are transparent in the simple API": "theorem C12_extern_transparent (fold step aliases the parent's scope, root untouched) + oracle `extern_transparent`",
@@ -38,11 +40,35 @@ ASSUMPTIONS = ["sequences are joined by a blank line (a doc block ending A would
 MODEL_COVERAGE = "main loop and block handling (Parser/Decl.lean), SimpleCxxVisitor fold (SimpleFold.lean)"
 
 
+class HeadedVisitor(S.SimpleCxxVisitor):
+    """the simple visitor, also recording which namespace paths were named by a header of their own
+    (`namespace a::b {` names `a::b`; `a` is only passed through and keeps its flags)"""
+
+    def on_parse_start(self, state):
+        super().on_parse_start(state)
+        self.headed = set()
+        self.ns_paths = {id(self.data.namespace): ()}
+
+    def on_namespace_start(self, state):
+        parent = state.parent.user_data
+        r = super().on_namespace_start(state)
+        path = self.ns_paths[id(parent)]
+        scope = parent
+        for name in (state.namespace.names or [""]):
+            scope = scope.namespaces[name]
+            path = path + (name,)
+            self.ns_paths[id(scope)] = path
+        self.headed.add(path)
+        return r
+
+
 def parse_counting(text):
-    """ParsedData and the number of anonymous ids the parser allocated"""
-    v = S.SimpleCxxVisitor()
+    """ParsedData (with the set of namespace paths that had a header of their own) and the number of
+    anonymous ids the parser allocated"""
+    v = HeadedVisitor()
     p = CxxParser("f.h", text, v, ParserOptions())
     p.parse()
+    v.data._headed = v.headed
     return v.data, p.anon_id
 
 
@@ -65,17 +91,19 @@ def shift_anon(obj, off, seen=None):
             shift_anon(x, off, seen)
 
 
-def merge_ns(a, b):
+def merge_ns(a, b, headed_b, path=()):
     out = copy.deepcopy(a)
     for f in dataclasses.fields(S.NamespaceScope):
         va, vb = getattr(out, f.name), getattr(b, f.name)
         if f.name == "namespaces":
             for k, nb in vb.items():
                 if k in va:
-                    m = merge_ns(va[k], nb)
-                    # re-opening: the latest header's flags win
-                    m.inline = nb.inline
-                    m.doxygen = nb.doxygen
+                    m = merge_ns(va[k], nb, headed_b, path + (k,))
+                    if path + (k,) in headed_b:
+                        # re-opening: the latest header's flags win; a namespace that B only passes
+                        # through (`k::x {`) keeps the flags it had
+                        m.inline = nb.inline
+                        m.doxygen = nb.doxygen
                     va[k] = m
                 else:
                     va[k] = copy.deepcopy(nb)
@@ -87,9 +115,10 @@ def merge_ns(a, b):
 def merge_data(a, b, off):
     b = copy.deepcopy(b)
     shift_anon(b, off)
-    out = S.ParsedData(namespace=merge_ns(a.namespace, b.namespace))
+    out = S.ParsedData(namespace=merge_ns(a.namespace, b.namespace, b._headed))
     out.pragmas = copy.deepcopy(a.pragmas) + b.pragmas
     out.includes = copy.deepcopy(a.includes) + b.includes
+    out._headed = set(a._headed) | set(b._headed)
     return out
 
 
@@ -254,7 +283,7 @@ def run(ctx):
             fails2.append({"input": w3, "other": t, "diff": first_diff(d3, d)})
         # the same inside enclosing scopes: the block's content belongs to the scope the block is written in
         enc = rng.choice(["namespace W {\n%s\n}\n", "namespace p::q {\n%s\n}\n", "namespace {\n%s\n}\n", "namespace o { inline namespace i {\n%s\n} }\n",
-                          "namespace W {\nint before;\n%s\nint after;\n}\n", "extern \"C++\" {\n%s\n}\n"])
+                          "namespace W {\nint before;\n\n%s\n\nint after;\n}\n", "extern \"C++\" {\n%s\n}\n"])
         try:
             d4, _ = parse_counting(enc % t.rstrip("\n"))
             d5, _ = parse_counting(enc % ("extern \"C\" {\n%s\n}" % t.rstrip("\n")))
